@@ -136,3 +136,31 @@ size_t wb_mp_header_bytes(void)
 {
     return sizeof(ABTI_mem_pool_header);
 }
+
+/* ------------------------------------------------------------------ ASan support (variant VS)
+ * Argobots abandons stacks without unwinding (exit, jump) and recycles them; stale redzone
+ * poison would produce false stack-buffer reports.  Unpoison a context's whole stack when
+ * it is abandoned and when a fresh context is about to start on it. */
+#if defined(__SANITIZE_ADDRESS__)
+void __asan_unpoison_memory_region(void const volatile *addr, size_t size);
+static void unpoison_ctx_stack(const void *p_ctx)
+{
+    const ABTD_ythread_context *c = (const ABTD_ythread_context *)p_ctx;
+    if (!c || !c->p_stacktop || !c->stacksize)
+        return;
+    __asan_unpoison_memory_region((char *)c->p_stacktop - c->stacksize, c->stacksize);
+}
+void wb_asan_ctxswitch(const void *p_abandoned, const void *p_new)
+{
+    if (p_abandoned)
+        unpoison_ctx_stack(p_abandoned);
+    if (p_new && !ABTDI_fcontext_is_created((fcontext_t *)&((ABTD_ythread_context *)p_new)->ctx))
+        unpoison_ctx_stack(p_new);
+}
+#else
+void wb_asan_ctxswitch(const void *p_abandoned, const void *p_new)
+{
+    (void)p_abandoned;
+    (void)p_new;
+}
+#endif
